@@ -335,6 +335,108 @@ def action_level(ctx: Ctx, forced: list[dict]) -> dict:
     return info
 
 
+STATEFUL_TRACE_CFG = """SPECIFICATION TSpec
+CONSTANTS
+  StepCount = %(steps)d
+  MaxScen = 100000
+  MaxSuites = 1000
+  MaxFail = %(mf)d
+  NKinds = 8
+  FixDrain = TRUE
+  FixCtrlC = TRUE
+  FixDrainExec = TRUE
+  FixSetup = TRUE
+  FixWorst = TRUE
+  AllowStop = TRUE
+  AllowCtrlC = TRUE
+  AllowError = TRUE
+  AliveCheck = TRUE
+INVARIANT Report
+CHECK_DEADLOCK FALSE
+"""
+
+
+def stateful_trace_lines(run: dict) -> "list[dict] | str":
+    """Projection of a recorded stateful-only run to the alphabet of spec/StatefulTrace.tla (a string = why it is outside the fragment)."""
+    hdr = run["hdr"]
+    if hdr is None or hdr.get("cli") or hdr["enabled"] != [False, False, False, False, True]:
+        return "not-stateful-only"      # unit phases are Engine.tla's
+    if hdr["unique"]:
+        return "unique-inputs"          # a step may be answered from the outcome cache without a request
+    if any(ln["e"] in ("CRASH", "HANG", "TDEATH") for ln in run["lines"]):
+        return "crash-or-hang"          # judged by EngineStream (NoCrash / Terminates / the death is a fault)
+    out = []
+    blank = {"e": "", "k": "", "st": "", "fails": 0, "limit": False}
+    started = next((i for i, ln in enumerate(run["lines"]) if ln["e"] == "Y" and ln["k"] == "PS" and ln["ph"] == 5), None)
+    if started is None or any(ln["e"] in ("STOP", "CTRLC") for ln in run["lines"][:started]):
+        return "stopped-before-the-phase"   # the stateful phase never ran (Engine.tla's plan loop covers that)
+    if not any(ln["e"] == "QPUT" and ln["k"] == "SS" for ln in run["lines"]):
+        return "stopped-before-the-phase"   # stopped right after PhaseStarted: the plan loop skips the phase, its thread is never created
+    for ln in run["lines"]:
+        e = ln["e"]
+        if e == "QPUT":
+            out.append(dict(blank, e="Q", k=ln["k"], st=ln["st"]))
+        elif e in ("STEP", "TEXIT", "STOP", "CTRLC"):
+            out.append(dict(blank, e=e))
+        elif e == "R":
+            out.append(dict(blank, e="R"))
+        elif e == "COUNT":
+            out.append(dict(blank, e="COUNT", fails=ln["fails"], limit=bool(ln["limit"])))
+        elif e == "Y":
+            if ln["k"] in ("ES", "EF") or (ln["k"] == "PF" and ln["ph"] == 5):
+                out.append(dict(blank, e="Y", k=ln["k"], st=ln["st"]))
+            elif ln["k"] in ("SS", "ScS", "ScF", "SF", "NFE", "INT"):
+                out.append(dict(blank, e="Y", k=ln["k"], st=ln["st"]))
+    return out
+
+
+def action_level_stateful(ctx: Ctx, runs: list[dict]) -> dict:
+    """Every stateful-only run (free-running threads, any disturbance) must be a behaviour of Stateful.tla, action by action."""
+    batches: dict[tuple, list] = {}
+    index: dict[tuple, list[int]] = {}
+    skipped: dict[str, int] = {}
+    for i, r in enumerate(runs):
+        lines = stateful_trace_lines(r) if r.get("hdr") else "no-header"
+        if isinstance(lines, str):
+            if lines != "not-stateful-only":
+                skipped[lines] = skipped.get(lines, 0) + 1
+            continue
+        key = (int(r["hdr"]["steps"]), int(r["hdr"]["maxfail"]))
+        batches.setdefault(key, []).append({"stop": any(ln["e"] == "STOP" for ln in lines), "lines": lines})
+        index.setdefault(key, []).append(i)
+    info = {"runs": 0, "accepted": 0, "rejected": [], "states": 0, "outside_fragment": skipped, "batches": len(batches)}
+    jobs = []
+    keys = sorted(batches)
+    for key in keys:
+        path = ctx.path("strace_%d_%d.json" % key)
+        tlc.write_json(path, batches[key])
+        cfg = ctx.path("StatefulTrace_%d_%d.cfg" % key)
+        with open(cfg, "w") as fd:
+            fd.write(STATEFUL_TRACE_CFG % {"steps": key[0], "mf": key[1]})
+        jobs.append({"module": "StatefulTrace", "cfg": cfg, "env": {"OBS_FILE": path}, "workers": 1, "timeout": 1800, "heap": "4g"})
+    results = tlc.run_many(jobs, parallel=6) if jobs else []
+    for key, res in zip(keys, results):
+        tlc.require_ok(res, "StatefulTrace %s" % (key,))
+        acc = {p[1] for p in res.prints if isinstance(p, list) and p and p[0] == "ACCEPT"}
+        inv = {p[1] for p in res.prints if isinstance(p, list) and p and p[0] == "INVARIANT"}
+        stuck: dict[int, int] = {}
+        for p in res.prints:
+            if isinstance(p, list) and p and p[0] == "STUCK":
+                stuck[p[1]] = max(stuck.get(p[1], 0), p[2])
+        info["runs"] += len(batches[key])
+        info["states"] += res.distinct
+        for k in range(1, len(batches[key]) + 1):
+            if k in acc and k not in inv:
+                info["accepted"] += 1
+            else:
+                line = stuck.get(k, 0)
+                lines = batches[key][k - 1]["lines"]
+                info["rejected"].append({"run": index[key][k - 1], "line": line, "invariant": k in inv,
+                                         "next": lines[line - 1] if 0 < line <= len(lines) else None,
+                                         "context": [(x["e"], x["k"], x["st"]) for x in lines[max(0, line - 6):line]]})
+    return info
+
+
 def run_property(ctx: Ctx, pid: str, design_cfgs: list[str]) -> Outcome:
     out = Outcome()
     rng = random.Random(ctx.seed * 7919 + int(pid[1:]))
@@ -422,6 +524,15 @@ def run_property(ctx: Ctx, pid: str, design_cfgs: list[str]) -> Outcome:
             "%s:EngineTrace:%s" % (pid, "invariant" if rej["invariant"] else "no-engine-action-explains-line"),
             "forced run %s is not a behaviour of Engine.tla: stuck before line %s (%s)" % (run["origin"], rej["line"], rej["next"]),
             {"kind": "run", "desc": run["desc"], "clause": "EngineTrace", "line": rej["line"]}))
+    # 3d. action-level trace validation of every stateful-only run against Stateful.tla's own actions
+    slevel = action_level_stateful(ctx, runs)
+    for rej in slevel["rejected"][:5]:
+        run = runs[rej["run"]]
+        out.violations.append(Violation(
+            "%s:StatefulTrace:%s:%s" % (pid, "invariant" if rej["invariant"] else "no-stateful-action-explains-line", variant_of(run["desc"])),
+            "run %s is not a behaviour of Stateful.tla: stuck before line %s %s after %s" % (
+                {k: v for k, v in run["desc"].items() if k != "params"}, rej["line"], rej["next"], rej["context"]),
+            {"kind": "run", "desc": run["desc"], "clause": "StatefulTrace", "line": rej["line"]}))
     # 4. trace validation
     rejected, accepted, jres = judge(ctx, runs, pid)
     own = 0
@@ -455,6 +566,7 @@ def run_property(ctx: Ctx, pid: str, design_cfgs: list[str]) -> Outcome:
         "exhaustive": False,
         "design_models": design, "old_designs_refuted": refuted,
         "cli_subprocess_runs": len(cli_runs), "forced_schedules": sinfo, "action_level_traces": {k: v for k, v in alevel.items() if k != "rejected"},
+        "action_level_stateful_traces": {k: v for k, v in slevel.items() if k != "rejected"},
         "family_size": len(fam), "base_descriptors": len(plain), "disturbed_runs": len(todo), "faults_fired": fired,
         "accepted": len(accepted), "rejected_own": own, "rejected_foreign": sum(foreign.values()),
         "trace_lines": sum(len(r["lines"]) for r in runs), "judge_states": jres.distinct,
@@ -507,4 +619,26 @@ def selftest(ctx: Ctx, pid: str) -> bool:
     ok = 0 in accepted and 1 in rejected and any(c.startswith(want) for _, c in rejected[1])
     if not ok:
         print("selftest detail:", rejected, accepted)
-    return ok
+    # action-level binding of the stateful phase: a recorded run is accepted by StatefulTrace.tla; with one queue put removed, one
+    # status changed, or one request added it is no behaviour of Stateful.tla any more
+    sgood = _run({"ops": ["ok"], "links": "bad", "phases": ["stateful"], "workers": 1, "max_failures": 1, "cof": False, "unique": False,
+                  "seed": 3, "max_examples": 3, "step_count": 2})
+    variants_ = [sgood]
+    for kind in ("drop-put", "status", "extra-request"):
+        v = copy.deepcopy(sgood)
+        if kind == "drop-put":
+            i = next(i for i, ln in enumerate(v["lines"]) if ln["e"] == "QPUT" and ln["k"] == "ScF")
+            del v["lines"][i]
+        elif kind == "status":
+            ln = next(ln for ln in v["lines"] if ln["e"] == "QPUT" and ln["k"] == "SF")
+            ln["st"] = "success" if ln["st"] != "success" else "failure"
+        else:
+            i = max(i for i, ln in enumerate(v["lines"]) if ln["e"] == "R")
+            v["lines"][i:i] = [dict(v["lines"][i])] * 3
+        variants_.append(v)
+    sinfo = action_level_stateful(ctx, variants_)
+    rej = {r["run"] for r in sinfo["rejected"]}
+    sok = sinfo["runs"] == 4 and rej == {1, 2, 3}
+    if not sok:
+        print("selftest detail (StatefulTrace):", {k: v for k, v in sinfo.items() if k != "rejected"}, sorted(rej))
+    return ok and sok
